@@ -209,6 +209,7 @@ func c19one(c *fw.Check, mi int, m *ir.Module, s string, mode string, limit, chu
 	}
 	c.Case(fmt.Sprintf("%d|%s|%d|%d|%v", mi, mode, limit, chunk, strW), fmt.Sprintf("%d|%v|%d", n, err, len(w.data)))
 	c.Step(int64(w.calls))
+	c.Valid(1)
 	if p != "" {
 		bad("panic")
 		return
